@@ -25,6 +25,17 @@ fn adopt_while_marked(k: Kind, slot: u8, variant: u8, weak: bool) -> Vec<Step> {
     ]
 }
 
+/// A rooted, fully marked parent of kind `k` adopts, through (slot, variant), a child that was only
+/// weakly reachable when marking finished (weakly marked) and has just been upgraded.
+fn adopt_weakly_marked(k: Kind, slot: u8, variant: u8) -> Vec<Step> {
+    vec![
+        new_arena(0, vec![alloc(k, 0), MutOp::RootSet { slot: 0, child: Some(0) }, alloc(Kind::D, 0), MutOp::RootWeak { slot: 0, child: Some(255) }]),
+        Step::Collect { arena: 0, api: Api::FinishMarking },
+        // holder 255 = the root; operand 0 = the parent (the only strongly reachable object)
+        Step::Mutate { arena: 0, via_root: false, ops: vec![MutOp::Upgrade { holder: 255, wslot: 0, store: Some((0, slot, variant)) }], panic_at: None },
+    ]
+}
+
 pub fn prefixes(prop: &str) -> Vec<Vec<Step>> {
     let mut v: Vec<Vec<Step>> = Vec::new();
     match prop {
@@ -43,6 +54,19 @@ pub fn prefixes(prop: &str) -> Vec<Vec<Step>> {
                     }
                 }
             }
+            for (k, slots) in [(Kind::D, 9u8), (Kind::R, 4), (Kind::LB, 1), (Kind::RB, 2), (Kind::OB, 1), (Kind::P, 2)] {
+                for s in 0..slots {
+                    for variant in 0..(if k == Kind::R { 4 } else { 2 }) {
+                        v.push(adopt_weakly_marked(k, s, variant));
+                    }
+                }
+            }
+            // a weakly marked, upgraded child stashed into a traced set
+            v.push(vec![
+                new_arena(0, vec![alloc(Kind::Set, 0), MutOp::RootSet { slot: 0, child: Some(0) }, alloc(Kind::D, 0), MutOp::RootWeak { slot: 0, child: Some(255) }]),
+                Step::Collect { arena: 0, api: Api::FinishMarking },
+                Step::Mutate { arena: 0, via_root: false, ops: vec![MutOp::Upgrade { holder: 255, wslot: 0, store: None }, MutOp::Stash { set: 0, target: 255 }], panic_at: None },
+            ]);
             // stash into a traced set
             v.push(vec![
                 new_arena(0, vec![alloc(Kind::Set, 0), MutOp::RootSet { slot: 0, child: Some(0) }]),
